@@ -45,6 +45,9 @@ func doSelftest(tier string, seed uint64, workers int) int {
 		p := props[jb.prop]
 		cases := p.plan("quick", seed, jb.i+1)
 		c := cases[jb.i]
+		if c.Scenario.Extra != nil && c.Scenario.Extra["wall_limit_s"] != "" {
+			return // the pinned hang of a recorded finding: it ends at the wall-clock limit and leaves no record to compare
+		}
 		c.Idx = j
 		dirCase := &Case{Idx: j, Seed: c.Seed, Scenario: c.Scenario, Label: c.Label}
 		in := &scen.RunInput{Property: jb.prop, Seed: c.Seed, Scenario: dirCase.Scenario, JobDir: fmt.Sprintf("%s/st-%d", workRoot, j)}
